@@ -41,6 +41,7 @@ var coreKeyTypes = []reflect.Type{
 }
 
 var fieldNames = []string{"A", "B", "Ab", "AB", "C1", "D_", "E", "F", "Gg", "H", "Abc", "X", "Y", "Z", "Id", "Name"}
+var wideNames = []string{"I", "J", "K", "L", "M", "N", "O", "P", "Q", "R", "S", "T", "U", "V", "W", "K10", "K11", "Kk"}
 var tagNames = []string{"", "a", "b", "ab", "x-y", "<k>", "Ab", "q", "é", "A", "name", "with space", "0", "x/y", "a/"}
 
 // Feature is an "odd" type shape injected at most once per generated type. The name is part of
@@ -262,16 +263,42 @@ func (b *builder) typ(r *rand.Rand, depth int, ptrDepth int) reflect.Type {
 			max = 6
 		}
 		n := r.Intn(max + 1)
+		// wide structs: go-json's decoder has three key-lookup implementations, chosen by the
+		// number of members (<= 8, 9..16, more)
+		wide := false
+		if b.o.MaxFields == 0 {
+			switch r.Intn(14) {
+			case 0:
+				n, wide = 9+r.Intn(8), true
+			case 1:
+				n, wide = 17+r.Intn(6), true
+			}
+		}
 		var fs []reflect.StructField
 		used := map[string]bool{}
 		usedJSON := map[string]bool{}
+		var order []int
+		if wide {
+			order = r.Perm(len(fieldNames) + len(wideNames))
+		}
 		for i := 0; i < n; i++ {
 			nm := fieldNames[r.Intn(len(fieldNames))]
+			if wide {
+				if j := order[i]; j < len(fieldNames) {
+					nm = fieldNames[j]
+				} else {
+					nm = wideNames[j-len(fieldNames)]
+				}
+			}
 			if used[nm] {
 				continue
 			}
 			used[nm] = true
-			ft := b.typ(r, depth-1, 0)
+			fd := depth - 1
+			if wide && fd > 1 {
+				fd = 1
+			}
+			ft := b.typ(r, fd, 0)
 			tag := ""
 			tn0 := ""
 			if r.Intn(2) == 0 {
